@@ -18,7 +18,7 @@ package main
 //	         W = f (not interrogated) | r<err><dj> (interrogated, running) | s<err><atGlobal><dj>.<local names>
 //	         (dj: the recorded error's data is accepted by json.Marshal as it is)
 //	payload: conc <gs> <n>   — the concurrent kind (see c16Conc)
-//	result : <class>,<class>,… <still>     class of every command step: ok|error|PANIC|HANG|NOJSON,
+//	result : R:<class>,<class>,… <still>     class of every command step: ok|error|PANIC|HANG|NOJSON,
 //	         still = class of a following `status`
 //
 // Only the reply classes are compared: never message texts or JSON contents.
@@ -726,8 +726,10 @@ func c16Run(payload string) string {
 	if len(f) < 3 {
 		return "bad-payload"
 	}
+	// results carry the prefix "R:" — a command that hung is a class of the compared result here
+	// (found with the harness's own generous, load-tolerant time bounds), not a stuck harness
 	if f[0] == "conc" {
-		return c16Conc()
+		return "R:" + c16Conc()
 	}
 	if f[2] == "?" {
 		return "RECORD-TIMEOUT" // the harness could not record this case (counted; not a statement about the code)
@@ -746,7 +748,7 @@ func c16Run(payload string) string {
 		rec = []c16Step{}
 	}
 	_, _, res := c16Exec(f[0], f[1] == "1", lines, rec, f[2])
-	return res
+	return "R:" + res
 }
 
 // ---- generator
@@ -789,6 +791,17 @@ func c16Gen(g *Gen) {
 		k++
 		if k%sn != si || k < start {
 			g.Emit("not-in-this-shard") // never written nor executed: only counts the index
+			return
+		}
+		// circuit breaker: once commands have hung 8 times in this process (each one is already a
+		// reported disagreement) the remaining cases are not executed — every hang costs seconds
+		if atomic.LoadInt32(&c16Hangs) >= 8 {
+			g.Count("skipped-after-hangs")
+			var un []c16Step
+			for _, l := range lines {
+				un = append(un, c16Step{l, "0", "?"})
+			}
+			g.Emit(c16Payload(scn, gsGiven, "?", un))
 			return
 		}
 		// the recording run is bounded as a whole (it runs outside the per-case time limit)
